@@ -7,7 +7,7 @@ from parglare.glr import Parent
 from vp import corpus, pgx, refcfg
 from vp.symx import Pre, build_guard
 
-from .common import TABLES, bump, excluded_inputs, length_of, norm, norm_in, spec_from_params
+from .common import TABLES, bump, excluded_inputs, glr_build, length_of, norm, norm_in, selfcheck_oracle, spec_from_params
 
 INFO = {
     "level": "other",
@@ -76,10 +76,10 @@ def _case(g, tb, N, budget=600):
 def build(params, symbolic):
     spec = spec_from_params(params)
     N, K = params["N"], params["K"]
-    grammar = Grammar.from_string(spec.text())
-    with build_guard(20, "GLRParser construction (table construction is C05's subject)"):
-        parser = GLRParser(grammar, tables=TABLES[params["tables"]])
-    skip = excluded_inputs("C01", params.get("gname"))
+    parser = glr_build(spec, params["tables"])
+    if symbolic:
+        selfcheck_oracle(spec, min(N, 4))
+    skip = excluded_inputs("C01", spec.short())
     twin = params.get("twin")
     stats = {}
 
